@@ -38,9 +38,6 @@ func (b *batch) Get(key []byte, cb func(value []byte) error) error {
 		return errBatchClosed
 	}
 
-	b.db.lock.RLock()
-	defer b.db.lock.RUnlock()
-
 	if val, ok := b.writeMap[string(key)]; ok {
 		if val.delete {
 			return db.ErrKeyNotFound
@@ -48,7 +45,11 @@ func (b *batch) Get(key []byte, cb func(value []byte) error) error {
 		return cb(val.value)
 	}
 
+	// Only the lookup in the store needs the store lock; the callback runs without it, as on
+	// the pebble backends (it may use the store again, even write to it).
+	b.db.lock.RLock()
 	val, ok := b.db.db[string(key)]
+	b.db.lock.RUnlock()
 	if !ok {
 		return db.ErrKeyNotFound
 	}
